@@ -260,6 +260,7 @@ class Fn:
                     args = e.args[:1]
                 else:
                     args = e.args
+                    self.not_rebound(e, name)
                 for ms in self.sig.get('functions', {}).get(name, []):
                     try:
                         return self.call_spec(e, ms, None, args, e.keywords, env, idx)
@@ -267,6 +268,16 @@ class Fn:
                         continue
                 raise Unsupported(e, 'call of %s with these arguments' % name)
         raise Unsupported(e, 'expression %s' % type(e).__name__)
+
+    def not_rebound(self, node, name):
+        """a builtin (or the class itself) called by name keeps its meaning: nothing in the module rebinds it"""
+        for n in ast.walk(self.tree):
+            if isinstance(n, (ast.FunctionDef, ast.ClassDef)) and n.name == name and \
+                    not (isinstance(n, ast.ClassDef) and name == self.sig['class'] and n in self.tree.body) or \
+                    isinstance(n, ast.Name) and n.id == name and isinstance(n.ctx, ast.Store) or \
+                    isinstance(n, ast.arg) and n.arg == name or \
+                    isinstance(n, ast.alias) and (n.asname or n.name).split('.')[0] == name:
+                raise Unsupported(node, 'name %s is rebound somewhere in the module' % name)
 
     def need_import(self, node, name):
         want = self.sig.get('imports', {}).get(name)
